@@ -37,9 +37,10 @@ theorem delta_first_record_any (s : State) (r : DReq) (hnone : s r.ty = none) (h
   · intro x
     rw [mem_deltaWatched]; simp
 
-theorem sinv_serverRecv (t : Ty) (hm : t.managed = false) (y : DSys) (n : String) (h : SInv t y) :
-    SInv t (dstep t y (.serverRecv n)) := by
-  unfold dstep
+theorem sinv_serverRecv (t : Ty) (hm : t.managed = false) (hwild : t.wildcard = false) (y : DSys) (n : String)
+    (gen : List String) (h : SInv t y) :
+    SInv t (dstep t y (.serverRecv n gen)) := by
+  simp only [dstep, sentNames_named t gen hwild]
   cases hc : y.c2s with
   | nil => simpa using h
   | cons m rest =>
@@ -90,16 +91,17 @@ theorem sinv_serverRecv (t : Ty) (hm : t.managed = false) (y : DSys) (n : String
           have : s' t = some w := by simpa [DMsg.toReq] using hw
           rw [this] at hnone; cases hnone
 
-theorem sinv_step (t : Ty) (hm : t.managed = false) (y : DSys) (e : DStep) (h : SInv t y) : SInv t (dstep t y e) := by
+theorem sinv_step (t : Ty) (hm : t.managed = false) (hwild : t.wildcard = false) (y : DSys) (e : DStep) (h : SInv t y) :
+    SInv t (dstep t y e) := by
   cases e with
   | clientWant add remove => simpa [dstep, SInv] using h
   | clientFlush => simpa [dstep, SInv] using h
   | clientRecv nack =>
     unfold dstep
     cases hs : y.s2c <;> simpa [SInv] using h
-  | serverRecv n => exact sinv_serverRecv t hm y n h
-  | serverPush n ok =>
-    unfold dstep
+  | serverRecv n gen => exact sinv_serverRecv t hm hwild y n gen h
+  | serverPush n ok gen =>
+    simp only [dstep, sentNames_named t gen hwild]
     cases hs : y.srv t with
     | none => simpa using h
     | some prev =>
@@ -134,7 +136,7 @@ theorem cinv_step (t : Ty) (y : DSys) (e : DStep) (h : CInv y) : CInv (dstep t y
       rw [h x, foldMsgs_append]
       simp only [foldMsgs, List.foldl_cons, List.foldl_nil]
       rw [mem_applyChange_nil _ _ (star_not_mem_applyChange _ _ _)]
-  | serverRecv n =>
+  | serverRecv n gen =>
     unfold dstep
     cases hc : y.c2s with
     | nil => simpa using h
@@ -147,15 +149,16 @@ theorem cinv_step (t : Ty) (y : DSys) (e : DStep) (h : CInv y) : CInv (dstep t y
       cases hres : shouldRespondDelta y.srv (m.toReq t) with
       | crash => simpa [CInv, hc] using h
       | out b s' => cases b <;> exact h'
-  | serverPush n ok =>
+  | serverPush n ok gen =>
     unfold dstep
     cases hs : y.srv t <;> simpa [CInv] using h
 
-theorem dinv_run (t : Ty) (hm : t.managed = false) (y : DSys) (steps : List DStep) (h : SInv t y ∧ CInv y) :
+theorem dinv_run (t : Ty) (hm : t.managed = false) (hwild : t.wildcard = false) (y : DSys) (steps : List DStep)
+    (h : SInv t y ∧ CInv y) :
     SInv t (drun t y steps) ∧ CInv (drun t y steps) := by
   induction steps generalizing y with
   | nil => exact h
-  | cons e es ih => exact ih (dstep t y e) ⟨sinv_step t hm y e h.1, cinv_step t y e h.2⟩
+  | cons e es ih => exact ih (dstep t y e) ⟨sinv_step t hm hwild y e h.1, cinv_step t y e h.2⟩
 
 theorem dinv_init (t : Ty) : SInv t DSys.init ∧ CInv DSys.init := by
   refine ⟨by simp [SInv, DSys.init], ?_⟩
@@ -164,14 +167,15 @@ theorem dinv_init (t : Ty) : SInv t DSys.init ∧ CInv DSys.init := by
 
 /-- **Record = what the client wants (delta closed loop).**  From a fresh stream, after ANY schedule,
     whenever no request is in flight and no change is waiting to be sent, the server's record of a
-    name-recording type is exactly the set the client wants (no record at all only if it wants nothing). -/
-theorem dloop_quiescent_record_matches (t : Ty) (hm : t.managed = false) (steps : List DStep)
+    NAMED type (EDS, RDS, SDS, ECDS: pushes do not rewrite it) is exactly the set the client wants (no record at all only if it wants nothing). -/
+theorem dloop_quiescent_record_matches (t : Ty) (hm : t.managed = false) (hwild : t.wildcard = false)
+    (steps : List DStep)
     (hq : (drun t DSys.init steps).c2s = []) (hs : (drun t DSys.init steps).pendSub = [])
     (hu : (drun t DSys.init steps).pendUnsub = []) :
     match (drun t DSys.init steps).srv t with
     | none => (drun t DSys.init steps).cwant = []
     | some w => ∀ x, x ∈ w.names ↔ x ∈ (drun t DSys.init steps).cwant := by
-  obtain ⟨hS, hC⟩ := dinv_run t hm DSys.init steps (dinv_init t)
+  obtain ⟨hS, hC⟩ := dinv_run t hm hwild DSys.init steps (dinv_init t)
   unfold SInv at hS
   unfold CInv at hC
   rw [hq, hs, hu] at hC
@@ -194,9 +198,9 @@ theorem dloop_quiescent_record_matches (t : Ty) (hm : t.managed = false) (steps 
 /-- Non-vacuity: the finding F-C04-2 schedule (a push overtakes the ACK that carries `+b`) is a schedule of
     this loop; it ends quiescent with `{a, b}` on record. -/
 example :
-    let y := drun .eds DSys.init [.clientWant ["a"] [], .clientFlush, .serverRecv "n1", .serverPush "n2" true,
-      .clientWant ["b"] [], .clientRecv none, .serverRecv "n3", .clientRecv none, .clientRecv none,
-      .serverRecv "n4", .serverRecv "n5"]
+    let y := drun .eds DSys.init [.clientWant ["a"] [], .clientFlush, .serverRecv "n1" ["a"], .serverPush "n2" true ["a"],
+      .clientWant ["b"] [], .clientRecv none, .serverRecv "n3" ["b"], .clientRecv none, .clientRecv none,
+      .serverRecv "n4" [], .serverRecv "n5" []]
     y.c2s = [] ∧ y.pendSub = [] ∧ y.pendUnsub = [] ∧ (y.srv .eds).map (·.names) = some ["a", "b"] ∧ y.cwant = ["a", "b"] := by
   decide
 
